@@ -51,6 +51,10 @@ def run_text_reader(ctx):
             ctx.fail("text-retry-in-quote", "calls after an I/O error inside a quoted scalar tokenize the rest of the string as unquoted data: %r fault at read %d -> %s" % (d[:60], fi, " ".join(parts[first_err - 1:first_err + 3])), [cases[k]], [o], fmap[d])
         elif toks != S[0][:len(toks)]:
             ctx.fail("text-fault-wrong", "%s fault at read %d: tokens %s differ from the fault-free %s on %r" % (kind, fi, " ".join(toks[:8]), " ".join(S[0][:8]), d), [cases[k]], [o], fmap[d])
+        elif ended and (toks != S[0] or S[1] != "END") and in_quote:
+            # same root cause: the rest of the quoted scalar is re-read as unquoted data; if it starts with '#'
+            # it is taken for a comment and swallows the rest of the line
+            ctx.fail("text-retry-in-quote", "calls after an I/O error inside a quoted scalar re-read the rest of the string as plain data (here: as a comment, ending the stream early): %r fault at read %d" % (d[:60], fi), [cases[k]], [o], fmap[d])
         elif ended and (toks != S[0] or S[1] != "END"):
             ctx.fail("text-fault-clean-end", "%s fault at read %d: clean end after %d of %d tokens on %r" % (kind, fi, len(toks), len(S[0]), d), [cases[k]], [o], fmap[d])
         elif kind == "persistent" and fi < 10**9 and ended and not errs and delivered < len(d):
